@@ -1,70 +1,267 @@
 #!/venv/bin/python
-"""C01 — basic buffer edits: correspondence with Ptk.Model.C01 + property oracle."""
+"""C01 — basic buffer edits: correspondence with Ptk.Model.C01* + property oracle.
+
+Case families (field "kind"):
+  ops     a real Buffer, one op per protocol line (Buffer methods, buffer.py functions, readline
+          named commands called through their registered handler with a stub event);
+          "fresh": every op from a fresh init (exhaustive small scope), else one op sequence
+  e2e     the same commands typed key by key into a real PromptSession (emacs mode, multi-line):
+          Esc - / Esc <digits> argument prefix, then the key; the model resolves the key through the
+          regenerated binding table and computes the argument from the typed keys
+  hist    op sequences on a Buffer with several history working lines: edits interleaved with
+          go_to_history / history_backward / history_forward / reset; all views compared after
+          every op
+  fc      the real FastDictCache(Document, size=n) against the modelled cache (hit/miss, eviction)
+  tc      Documents of equal / different texts created, read (lines, line start indexes) and
+          dropped: sharing of the `_cache` objects and the tables read through them
+"""
 from __future__ import annotations
 
 import itertools
 import os
+import re
 import sys
 
 sys.path.insert(0, os.path.dirname(os.path.abspath(__file__)))
 import core
-from core import enc_str, enc_bool
+from core import enc_str, enc_list
 
 from types import SimpleNamespace
 
-from prompt_toolkit.buffer import Buffer, indent, unindent
+from prompt_toolkit.buffer import Buffer, indent, unindent, reshape_text
 from prompt_toolkit.document import Document
 from prompt_toolkit.key_binding.bindings.named_commands import get_by_name
 
+import gen_c01
+
 NAMED = {"bdc": "backward-delete-char", "dc": "delete-char", "si": "self-insert", "tc": "transpose-chars",
-         "uw": "uppercase-word", "lw": "downcase-word", "cw": "capitalize-word"}
+         "uw": "uppercase-word", "lw": "downcase-word", "cw": "capitalize-word",
+         "kw": "kill-word", "rub": None, "kl": "kill-line", "uld": "unix-line-discard",
+         "dhs": "delete-horizontal-space", "ic": "insert-comment"}
 CASEF = {"uw": str.upper, "lw": str.lower, "cw": str.title}
 
 ID = "C01"
 DRIVER = "drv_c01"
-PROPS = ["Ptk.Props.C01"]
+PROPS = ["Ptk.Props.C01", "Ptk.Props.C01Cmd", "Ptk.Props.C01Kill", "Ptk.Props.C01Line", "Ptk.Props.C01Words",
+         "Ptk.Props.C01Reshape", "Ptk.Props.C01ReshapeWords", "Ptk.Props.C01All", "Ptk.Props.C01Cache"]
 ANCHORS = ["src/prompt_toolkit/buffer.py", "src/prompt_toolkit/document.py",
-           "src/prompt_toolkit/key_binding/bindings/named_commands.py"]
-LEVEL_TEXT = ("Lean 4 theorems over an executable model of the Buffer edit API: functional specs of insert / "
-              "overwrite / delete / delete_before_cursor / swap / join / transforms / indent and the invariant "
-              "0 <= cursor <= len(text) for every finite op sequence; the model is tied to /repo on every run by a "
-              "differential correspondence (exhaustive small scope + random sequences) and the property oracle")
-LEVEL_NOTE = ("trusted: Lean kernel, axioms propext/Classical.choice/Quot.sound only; the hand-written model "
-              "(validated by the correspondence, not proved equal to the Python); CPython str semantics")
-RULE = ("exhaustive: every text over a 5-symbol alphabet up to the tier's length bound x every cursor x "
-        "every single op with counts 0..len+2; then seeded random op sequences (1-12 ops) on texts up to 40 "
-        "chars incl. wide/combining characters; a case is non-trivial when at least one op changes text or cursor")
-EXHAUSTIVE = True
-EXHAUSTIVE_SCOPE = {"quick": "alphabet {a,B,space,\\n,\\t}, len<=3, all cursors, all single ops",
-                    "thorough": "alphabet {a,B,space,\\n,\\t}, len<=5, all cursors, all single ops"}
-TRUSTED = ["harness/c01.py compares (text, cursor, return value) after every op",
-           "Ptk/Model/C01.lean is a hand translation of buffer.py edit methods (correspondence-checked)"]
-ASSUMPTIONS = ["CPython str slicing/concatenation semantics", "str.isspace table regenerated from the interpreter",
-               "transform callback = ASCII swapcase in the correspondence; theorems hold for every callback"]
-PARTIAL_SCOPE = ["open_in_editor, yank_nth_arg, reshape_text not modelled",
-                 "named commands (backward-delete-char etc.) are exercised end to end by the oracle only"]
+           "src/prompt_toolkit/key_binding/bindings/named_commands.py",
+           "src/prompt_toolkit/key_binding/bindings/basic.py",
+           "src/prompt_toolkit/key_binding/key_processor.py", "src/prompt_toolkit/cache.py"]
+
+# functions of /repo whose bodies the Lean model follows line by line AND the correspondence exercises
+MODELLED = {
+    "src/prompt_toolkit/buffer.py": [
+        "Buffer.reset", "Buffer._set_text", "Buffer._set_cursor_position", "Buffer.text", "Buffer.cursor_position",
+        "Buffer.working_index", "Buffer.document", "Buffer.set_document", "Buffer.transform_lines",
+        "Buffer.transform_current_line", "Buffer.transform_region", "Buffer.delete_before_cursor", "Buffer.delete",
+        "Buffer.join_next_line", "Buffer.join_selected_lines", "Buffer.swap_characters_before_cursor",
+        "Buffer.go_to_history", "Buffer.history_forward", "Buffer.history_backward", "Buffer.newline",
+        "Buffer.insert_line_above", "Buffer.insert_line_below", "Buffer.insert_text",
+        "indent", "unindent", "unindent.transform", "reshape_text"],
+    "src/prompt_toolkit/document.py": [
+        "Document.__init__", "Document.lines", "Document._line_start_indexes", "Document.text_before_cursor",
+        "Document.text_after_cursor", "Document.current_line_before_cursor", "Document.current_line_after_cursor",
+        "Document.current_line", "Document.leading_whitespace_in_current_line",
+        "Document.find_start_of_previous_word", "Document.find_next_word_ending",
+        "Document.find_previous_word_ending", "Document.get_start_of_line_position",
+        "Document.get_end_of_line_position"],
+    "src/prompt_toolkit/key_binding/bindings/named_commands.py": [
+        "delete_char", "backward_delete_char", "self_insert", "transpose_chars", "_transform_following_words",
+        "uppercase_word", "downcase_word", "capitalize_word", "quoted_insert", "kill_line", "kill_word",
+        "unix_word_rubout", "backward_kill_word", "delete_horizontal_space", "unix_line_discard",
+        "insert_comment", "insert_comment.change"],
+    "src/prompt_toolkit/key_binding/bindings/basic.py": ["load_basic_bindings._insert_text"],
+    "src/prompt_toolkit/key_binding/key_processor.py": ["KeyPressEvent.arg", "KeyPressEvent.append_to_arg_count"],
+    "src/prompt_toolkit/cache.py": ["FastDictCache.__missing__"],
+}
 
 ALPHA = ["a", "B", " ", "\n", "\t"]
-RAND_ALPHA = ["a", "B", "c", " ", " ", "\n", "\n", "\t", "世", "é", "　", "x"]
+CMD_ALPHA = ["a", ".", " ", "\n", "#"]
+RS_ALPHA = ["a", " ", "\n", "\r", "\t"]
+RAND_ALPHA = ["a", "B", "c", " ", " ", "\n", "\n", "\t", "\u4e16", "e\u0301", "\u3000", "x", ".", "#", "-"]
+
+
+# ------------------------------------------------------------------ API coverage pin
+# public text/cursor mutators of buffer.py (found by the AST scan of gen_c01.api_scan on the tree
+# under test)  ->  the protocol ops that model them
+MODELLED_MUTATORS = {
+    "Buffer.text=": ["text"], "Buffer.cursor_position=": ["cur"], "Buffer.document=": ["setdoc"],
+    "Buffer.set_document": ["setdoc"], "Buffer.working_index=": ["goto", "hback", "hfwd"],
+    "Buffer.insert_text": ["ins"], "Buffer.delete": ["del"], "Buffer.delete_before_cursor": ["delb"],
+    "Buffer.newline": ["nl"], "Buffer.insert_line_above": ["above"], "Buffer.insert_line_below": ["below"],
+    "Buffer.join_next_line": ["join"], "Buffer.join_selected_lines": ["jsl"],
+    "Buffer.swap_characters_before_cursor": ["swap"], "Buffer.transform_current_line": ["trl"],
+    "Buffer.transform_region": ["trr"], "Buffer.go_to_history": ["goto"],
+    "Buffer.history_backward": ["hback"], "Buffer.history_forward": ["hfwd"], "Buffer.reset": ["hreset"],
+    "indent": ["ind"], "unindent": ["unind"], "reshape_text": ["rs"],
+}
+UNMODELLED_MUTATORS = {
+    "Buffer.apply_completion": "completion state (C15)", "Buffer.cancel_completion": "completion state (C15)",
+    "Buffer.complete_next": "completion state (C15)", "Buffer.complete_previous": "completion state (C15)",
+    "Buffer.go_to_completion": "completion state (C15)",
+    "Buffer.start_history_lines_completion": "completion state (C15)",
+    "Buffer.apply_search": "search (C16)",
+    "Buffer.auto_down": "cursor motion / history browsing (C02, C14)",
+    "Buffer.auto_up": "cursor motion / history browsing (C02, C14)",
+    "Buffer.cursor_down": "cursor motion (C02)", "Buffer.cursor_up": "cursor motion (C02)",
+    "Buffer.cursor_left": "cursor motion (C02)", "Buffer.cursor_right": "cursor motion (C02)",
+    "Buffer.copy_selection": "selection / clipboard (C09)", "Buffer.cut_selection": "selection / clipboard (C09)",
+    "Buffer.paste_clipboard_data": "clipboard (C09)",
+    "Buffer.undo": "undo stack (C07)", "Buffer.redo": "undo stack (C07)",
+    "Buffer.load_history_if_not_yet_loaded": "asynchronous history loading (C14)",
+    "Buffer.open_in_editor": "external editor / temp file, not modelled",
+    "Buffer.validate": "validator callback, not modelled",
+    "Buffer.validate_and_handle": "accept path (C17); reached here only through insert-comment",
+    "Buffer.yank_nth_arg": "history word splitting, not modelled",
+    "Buffer.yank_last_arg": "history word splitting, not modelled",
+}
+try:
+    API_SCAN = gen_c01.api_scan()
+except Exception as _e:  # broken tree
+    API_SCAN = []
+API_NEW = sorted(n for n in API_SCAN if n not in MODELLED_MUTATORS and n not in UNMODELLED_MUTATORS)
+API_GONE = sorted(n for n in list(MODELLED_MUTATORS) if n not in API_SCAN)
+API_COVERAGE = {
+    "scanned_public_mutators": len(API_SCAN),
+    "modelled": sorted(n for n in API_SCAN if n in MODELLED_MUTATORS),
+    "declared_unmodelled": {n: UNMODELLED_MUTATORS[n] for n in API_SCAN if n in UNMODELLED_MUTATORS},
+    "new_unknown_mutators": API_NEW,
+    "modelled_but_no_longer_found": API_GONE,
+}
+
+LEVEL_TEXT = (
+    "Lean 4 theorems (176 audited) over an executable model of (a) the Buffer edit API: insert / overwrite / "
+    "delete with ANY integer count / delete_before_cursor / newline / insert_line_above+below (text and cursor) / "
+    "join_next_line(separator) / join_selected_lines / swap / transform_lines+current_line+region / indent / "
+    "unindent / reshape_text / the text, cursor_position and document setters incl. read-only buffers and "
+    "set_document(bypass_readonly); (b) the readline named commands that edit text -- backward-delete-char, "
+    "delete-char, self-insert, transpose-chars, upcase/downcase/capitalize-word, kill-word, backward-kill-word, "
+    "unix-word-rubout, kill-line, unix-line-discard, delete-horizontal-space, quoted-insert, insert-comment -- as "
+    "functions of (text, cursor, integer argument), with the argument parser KeyPressEvent.arg / "
+    "append_to_arg_count and a scanner for the two word regexes; (c) the buffer with history working lines "
+    "(go_to_history, history_backward/forward, reset) and the two Document caches (FastDictCache keyed on "
+    "(text, cursor); _text_to_document_cache line tables shared between Documents of equal text, with arbitrary "
+    "loss of weak entries). Proved for ALL texts, cursors, integer arguments (negative and oversized) and finite "
+    "op sequences: every command is a LOCAL EDIT (text = kept prefix of text-before + X + kept suffix of text-after, "
+    "with the removed / inserted stretch and the returned text characterised exactly), reshape_text rewrites only "
+    "the addressed lines and only their white space, 0 <= cursor <= len(text) after every sequence, Buffer.text = "
+    "working line = Buffer.document.text after every interleaving of edits, working-line switches and cached "
+    "document reads, untouched working lines stay untouched, and a cached Document / line table never describes "
+    "another text. The model is tied to /repo on every run by regenerated constants and side conditions "
+    "(gen_ok), pattern pins, the regenerated key-binding table, an API coverage pin (AST scan of every public "
+    "mutator of buffer.py), a differential correspondence (3 exhaustive small scopes + random sequences; handler "
+    "level and typed through the real key processor; real FastDictCache and real Document caches) and the "
+    "property oracle")
+LEVEL_NOTE = ("trusted: Lean kernel, axioms propext/Classical.choice/Quot.sound only; the hand-written model "
+              "(validated by the correspondence, not proved equal to the Python); CPython str / list slice / "
+              "dict / weakref semantics; `re` for the two word patterns (hand-written scanner + pattern pin); "
+              "one known finding (kill-word with a negative argument, proposed fix attached) is carried by a "
+              "regenerated behaviour flag so that the check is green before and after the fix")
+RULE = ("exhaustive: every text over a 5-symbol alphabet up to the tier's length bound x every cursor x every "
+        "single op (Buffer methods, setters incl. read-only, named commands) with counts / arguments "
+        "-(len+2)..len+2; a second exhaustive family over {a . space \\n #} for the word / kill / comment "
+        "commands and a third over {a space \\n \\r \\t} for reshape_text (all row pairs -1..3 x -2..3, widths "
+        "0/1/3/5); then seeded random op sequences (1-12 ops) on texts up to 40 chars incl. wide/combining "
+        "characters, command sequences typed into a real PromptSession (Esc-prefixed numeric arguments incl. "
+        "'-', multi-digit and >= 1000000), history sequences (edits interleaved with working-line switches; "
+        "3 working lines x every index x every switch exhaustively), FastDictCache key sequences (exhaustive "
+        "for 3 keys, length <= 4, sizes 1-2) and Document create/read/drop sequences (exhaustive length <= 3); a "
+        "case is non-trivial when its text is non-empty or it has more than one working line / key")
+EXHAUSTIVE = True
+EXHAUSTIVE_SCOPE = {
+    "quick": "alphabet {a,B,space,\\n,\\t} len<=3 all cursors all single ops; {a,.,space,\\n,#} len<=3 all cursors "
+             "command ops; {a,space,\\n,\\r,\\t} len<=4 reshape_text rows -1..3 x -2..3 x widths {0,1,3,5}; history: "
+             "3 working lines over {'', a, a\\nb} x index x 11 switches; FastDictCache 3 keys len<=4 sizes 1,2; "
+             "Document cache op sequences len<=3",
+    "thorough": "alphabet {a,B,space,\\n,\\t} len<=4 all cursors all single ops, len 5 at cursors 0/2/5 with the "
+                "Buffer-method ops (the command ops at len 5 come from the second family); {a,.,space,\\n,#} len<=5 all cursors command ops; {a,space,\\n,\\r,\\t} len<=5 reshape_text rows -1..3 x -2..3 x widths "
+                "{0,1,3,5}; history: 3 working lines over {'', a, a\\nb, b c} x index x 11 switches x 6 edits; "
+                "FastDictCache 3 keys len<=4 sizes 1,2; Document cache op sequences len<=3"}
+TRUSTED = ["harness/c01.py compares (text, cursor, concatenated return values of Buffer.delete / "
+           "delete_before_cursor, EditReadOnlyBuffer raised or not) after every op, plus working index / all "
+           "working lines / document view in the history families, hit/miss + key order for FastDictCache, sharing "
+           "of _cache objects + tables read for the Document cache",
+           "Ptk/Model/C01*.lean are a hand translation of buffer.py, named_commands.py, KeyPressEvent.arg and "
+           "cache.FastDictCache (correspondence-checked)",
+           "harness/gen_c01.py prints the constants, binding table, behaviour probe and API scan it reads from the "
+           "tree under test",
+           "history families set Buffer._working_lines / working index / cursor directly to build a buffer with "
+           "several working lines (no event loop needed)"]
+ASSUMPTIONS = ["CPython str slicing/concatenation semantics, list slicing with negative bounds",
+               "str.isspace / regex \\s / str.splitlines tables regenerated from the running interpreter",
+               "transform callback = ASCII swapcase, case functions = str.upper/lower/title on ASCII + sharp s in the "
+               "correspondence; theorems hold for every callback",
+               "weak dictionary: an entry disappears exactly when no live Document holds its value (CPython "
+               "reference counting); the theorems additionally allow arbitrary loss of entries",
+               "history search off (enable_history_search = False, the default): every working line matches"]
+PARTIAL_SCOPE = [
+    "open_in_editor, yank_nth_arg / yank_last_arg, undo/redo, completion, search, selection/paste mutators are not "
+    "modelled (listed with reasons in the API coverage pin; C07/C09/C14/C15/C16 own them)",
+    "kill-word with a NEGATIVE argument: the current code passes the negative relative position to "
+    "Buffer.delete (known finding, proposed_fixes/C01-kill-word-negative-arg.diff); killWord_spec covers all "
+    "arguments of the fixed code and the arguments >= 0 of the current code, killWord_defect proves the witness",
+    "Buffer.delete(count < 0) itself: modelled and proved as the code has it (removes text_after_cursor[:count], "
+    "still a local edit that returns what it removed); the property statement does not define a negative count",
+    "unix-word-rubout / backward-kill-word with an argument <= 0 or larger than the number of words delete back "
+    "to the start of the document (as the code documents); proved as a local edit, not judged",
+    "insert-comment: modelled and proved as the code has it (str.splitlines: \\r, \\x0b, \\x0c ... become \\n and a "
+    "trailing line ending is dropped); the accept that follows is outside C01",
+    "case-transform commands: the stretch up to Document.find_next_word_ending (which skips the character under "
+    "the cursor) is what they address; proved as a local edit of one stretch after the cursor",
+    "clipboard side of the kill commands (C09), is_repeat concatenation, bell: not modelled",
+    "history search filter (enable_history_search) and asynchronous history loading are outside the model",
+    "the Document cache model has selection_state = None throughout; join_selected_lines, indent/unindent: frame "
+    "and invariant proved, exact line content correspondence-checked only",
+    "API coverage pin: %d public mutators of buffer.py found; %d modelled, %d declared unmodelled, new/unknown: %s"
+    % (len(API_SCAN), len(API_COVERAGE["modelled"]), len(API_COVERAGE["declared_unmodelled"]), API_NEW or "none"),
+]
 
 
 def swapcase_ascii(s: str) -> str:
     return "".join(c.upper() if "a" <= c <= "z" else c.lower() if "A" <= c <= "Z" else c for c in s)
 
 
-def single_ops(n: int):
-    """every op with every small argument, for a text of length n"""
+# ------------------------------------------------------------------ generators
+def cmd_ops(n: int):
+    """the command-level ops with every small argument"""
+    ops = []
+    for a in range(-(n + 1), n + 3):
+        ops.append(["kw", a])
+    for a in range(-1, n + 2):
+        ops += [["rub", a, 0], ["rub", a, 1]]
+    ops += [["kl", -1], ["kl", 0], ["kl", 1], ["kl", 2], ["uld"], ["dhs"], ["qi", "x"], ["qi", "\n"], ["qi", ""],
+            ["ic", 1], ["ic", 2], ["ic", -1], ["tc"]]
+    for w in ("uw", "lw", "cw"):
+        for a in (-1, 0, 1, 2, 3):
+            ops.append([w, a])
+    return ops
+
+
+def rs_ops():
+    ops = []
+    for a in range(-1, 4):
+        for b in range(-2, 4):
+            for w in (0, 1, 3, 5):
+                ops.append(["rs", a, b, w])
+    return ops
+
+
+def single_ops(n: int, base_only: bool = False):
+    """every op with every small argument, for a text of length n
+    (base_only: the Buffer-method ops only; the command ops are then covered by the second family)"""
     ops = []
     for data in ["", "x", "\n", "xy", "x\ny"]:
         for ov in (0, 1):
             for mv in (0, 1):
                 ops.append(["ins", data, ov, mv])
-    for k in range(n + 3):
+    for k in range(-(n + 2), n + 3):
         ops.append(["del", k])
+    for k in range(n + 3):
         ops.append(["delb", k])
     for c in (0, 1):
         ops += [["nl", c], ["above", c], ["below", c]]
-    ops += [["join", " "], ["join", ""], ["swap"], ["trl"]]
+    ops += [["join", " "], ["join", ""], ["join", "xy"], ["swap"], ["trl"]]
     for v in range(-1, n + 2):
         ops.append(["cur", v])
     ops += [["text", ""], ["text", "ab"]]
@@ -84,20 +281,48 @@ def single_ops(n: int):
     ops.append(["jsl", 0, ""])
     for c in range(-2, n + 2):
         ops.append(["setdoc", "ab", c])
-    ops += [["si", "x", -1], ["si", "x", 0], ["si", "x", 1], ["si", "xy", 3], ["tc"]]
-    for w in ("uw", "lw", "cw"):
-        for a in (-1, 0, 1, 2, 3):
-            ops.append([w, a])
-    return ops
+    ops += [["si", "x", -1], ["si", "x", 0], ["si", "x", 1], ["si", "xy", 3]]
+    if base_only:
+        return ops + [["tc"]] + [[w, a] for w in ("uw", "lw", "cw") for a in (-1, 0, 1, 2, 3)]
+    ops += [["rs", 0, 0, 3], ["rs", 0, 1, 0], ["rs", 1, 2, 1], ["rs", -1, 1, 5]]
+    ops += [["rotext", ""], ["rotext", "ab"], ["rotext", "abcdef"]]
+    for bp in (0, 1):
+        for c in range(-1, 4):
+            ops.append(["rosetdoc", bp, "ab", c])
+    return ops + cmd_ops(n)
+
+
+def rand_text(rng, n):
+    return "".join(rng.choice(RAND_ALPHA) for _ in range(n))
 
 
 def rand_op(rng, n):
-    k = rng.randrange(21)
+    k = rng.randrange(30)
     if k == 19:
         return ["jsl", rng.randrange(0, n + 1), rng.choice([" ", "", "-"])]
     if k == 20:
-        t = "".join(rng.choice(RAND_ALPHA) for _ in range(rng.randrange(0, 5)))
+        t = rand_text(rng, rng.randrange(0, 5))
         return ["setdoc", t, rng.randrange(-3, len(t) + 2)]
+    if k == 21:
+        return ["kw", rng.choice([-3, -2, -1, -1, 0, 1, 1, 2, 3, n + 1])]
+    if k == 22:
+        return ["rub", rng.choice([-1, 0, 1, 1, 2, 3, n + 1]), rng.randrange(2)]
+    if k == 23:
+        return ["kl", rng.choice([-2, -1, 0, 1, 1, 3])]
+    if k == 24:
+        return [rng.choice(["uld", "dhs"])]
+    if k == 25:
+        return ["qi", rng.choice(["x", "\x01", "\x1b[A", "\n", "\u4e16"])]
+    if k == 26:
+        return ["ic", rng.choice([1, 1, 2, 0, -1])]
+    if k in (27, 28):
+        a = rng.randrange(-2, 5)
+        return ["rs", a, a + rng.randrange(-1, 4), rng.choice([0, 1, 2, 4, 7, 12, 30])]
+    if k == 29:
+        if rng.random() < 0.5:
+            t = rand_text(rng, rng.randrange(0, 5))
+            return rng.choice([["rotext", t], ["rosetdoc", rng.randrange(2), t, rng.randrange(-2, len(t) + 2)]])
+        return ["del", -rng.choice([1, 1, 2, 3, n, n + 1])]
     if k >= 14:
         a = rng.choice([-n - 1, -2, -1, 0, 1, 1, 2, 3, n, n + 4])
         if k == 14:
@@ -111,8 +336,7 @@ def rand_op(rng, n):
         return [rng.choice(["uw", "lw", "cw"]), rng.choice([-1, 0, 1, 1, 2, 4])]
     cnt = rng.choice([0, 1, 1, 2, 3, n, n + 1, n + 5, rng.randrange(0, n + 2)])
     if k == 0:
-        data = "".join(rng.choice(RAND_ALPHA) for _ in range(rng.randrange(0, 4)))
-        return ["ins", data, rng.randrange(2), rng.randrange(2)]
+        return ["ins", rand_text(rng, rng.randrange(0, 4)), rng.randrange(2), rng.randrange(2)]
     if k == 1:
         return ["del", cnt]
     if k == 2:
@@ -140,107 +364,325 @@ def rand_op(rng, n):
     if k == 12:
         a = rng.randrange(-2, 4)
         return ["unind", a, a + rng.randrange(0, 4), rng.randrange(0, 3)]
-    return ["text", "".join(rng.choice(RAND_ALPHA) for _ in range(rng.randrange(0, 6)))]
+    return ["text", rand_text(rng, rng.randrange(0, 6))]
+
+
+# -- end to end: keys typed into a real PromptSession
+E2E_KEYS = {
+    # logical op kind -> (key sequence name in the binding table, terminal bytes)
+    "bdc": ("c-h", "\x7f"), "dc": ("delete", "\x1b[3~"), "uw": ("escape,u", "\x1bu"), "lw": ("escape,l", "\x1bl"),
+    "cw": ("escape,c", "\x1bc"), "tc": ("c-t", "\x14"), "kw": ("escape,d", "\x1bd"), "kw2": ("c-delete", "\x1b[3;5~"),
+    "rub1": ("c-w", "\x17"), "rub0": ("escape,c-h", "\x1b\x7f"), "kl": ("c-k", "\x0b"), "uld": ("c-u", "\x15"),
+    "dhs": ("escape,\\", "\x1b\\"), "ic": ("escape,#", "\x1b#"), "si": ("<any>", None),
+}
+
+
+def arg_keys_for(a, rng=None):
+    """the characters typed (each after Esc) to give the numeric argument a; '' = no argument"""
+    if a is None:
+        return ""
+    if a == -1 and (rng is None or rng.random() < 0.5):
+        return "-"
+    return str(a)
+
+
+def e2e_op(rng, n):
+    k = rng.choice(["bdc", "bdc", "dc", "dc", "uw", "lw", "cw", "tc", "si", "kw", "kw", "kw2", "rub1", "rub0",
+                    "kl", "uld", "dhs", "qi"])
+    a = rng.choice([None, None, -12, -2, -1, -1, 0, 1, 2, 3, 10, n + 2, 1000000, 999999 if k == "bdc" else 7])
+    if k == "qi":
+        return {"k": "qi", "op": ["qi", rng.choice(["\x01", "x", "\x17", "\x0b"])], "arg": ""}
+    if k == "si":
+        a = rng.choice([None, 1, 2, 3, 12, 0, -1])
+        data = rng.choice(["x", "y", "\u4e16", " "])
+        return {"k": k, "op": ["si", data, 1 if a is None else a], "arg": arg_keys_for(a, rng)}
+    if k in ("uw", "lw", "cw"):
+        a = rng.choice([None, 1, 2, 3, -1, 0])
+    if k in ("tc", "uld", "dhs"):
+        a = rng.choice([None, None, 2, -1])
+    av = 1 if a is None else (1 if a >= 1000000 else a)
+    if k in ("kw", "kw2"):
+        op = ["kw", av]
+    elif k == "rub1":
+        op = ["rub", av, 1]
+    elif k == "rub0":
+        op = ["rub", av, 0]
+    elif k in ("tc", "uld", "dhs"):
+        op = [k]
+    else:
+        op = [k, av]
+    return {"k": k, "op": op, "arg": arg_keys_for(a, rng)}
+
+
+def e2e_cases(rng, n):
+    for _ in range(n):
+        ln = rng.choice([0, 1, 2, 3, 5, 8, 13])
+        text = rand_text(rng, ln)
+        cur = rng.choice([0, len(text), rng.randrange(0, len(text) + 1)])
+        ops = [e2e_op(rng, len(text)) for _ in range(rng.choice([1, 1, 2, 3, 4]))]
+        if rng.random() < 0.15:
+            a = rng.choice([None, None, 2, 0])
+            ops.append({"k": "ic", "op": ["ic", 1 if a is None else a], "arg": arg_keys_for(a)})
+        yield {"kind": "e2e", "text": text, "cur": cur, "ops": ops}
+
+
+def e2e_bytes(o):
+    pre = "".join("\x1b" + ch for ch in o["arg"])
+    if o["k"] == "qi":
+        return "\x11" + o["op"][1]
+    if o["k"] == "si":
+        return pre + o["op"][1]
+    return pre + E2E_KEYS[o["k"]][1]
+
+
+# -- history sequences
+def hist_op(rng, nlines, n):
+    k = rng.randrange(10)
+    if k == 0:
+        return ["goto", rng.randrange(0, nlines + 2)]
+    if k == 1:
+        return ["hback", rng.choice([1, 1, 1, 2, 3, 0, -1, nlines + 1])]
+    if k == 2:
+        return ["hfwd", rng.choice([1, 1, 1, 2, 3, 0, -1, nlines + 1])]
+    if k == 3 and rng.random() < 0.3:
+        t = rand_text(rng, rng.randrange(0, 5))
+        return ["hreset", t, rng.randrange(0, len(t) + 1)]
+    return rand_op(rng, n)
+
+
+def hist_cases(rng, count, exhaustive_len):
+    # small scope: every (working lines of 3 short texts) x index x one switch x one edit x one switch
+    switches = [["goto", 0], ["goto", 2], ["goto", 3], ["hback", 1], ["hback", 2], ["hback", 0], ["hback", -1],
+                ["hfwd", 1], ["hfwd", 2], ["hfwd", 0], ["hfwd", -1]]
+    edits = [["ins", "x", 0, 1], ["delb", 1], ["text", "q"], ["kw", 1], ["nl", 0], ["setdoc", "zz", 1]]
+    texts = ["", "a", "a\nb", "b c"][:exhaustive_len]
+    for lines in itertools.product(texts, repeat=3):
+        for idx in range(3):
+            for s1 in switches:
+                ops = [s1]
+                for e in edits[: (2 if exhaustive_len < 4 else 6)]:
+                    for s2 in switches[:4]:
+                        ops2 = ops + [e, s2, ["hback", 1], ["hfwd", 1]]
+                        yield {"kind": "hist", "lines": list(lines), "idx": idx, "cur": len(lines[idx]), "ops": ops2}
+                    break
+    for _ in range(count):
+        nl = rng.choice([1, 2, 3, 5])
+        lines = [rand_text(rng, rng.choice([0, 1, 2, 4, 9])) for _ in range(nl)]
+        idx = rng.randrange(nl)
+        cur = rng.choice([0, len(lines[idx]), rng.randrange(0, len(lines[idx]) + 1)])
+        ops = [hist_op(rng, nl, 6) for _ in range(rng.randrange(1, 11))]
+        yield {"kind": "hist", "lines": lines, "idx": idx, "cur": cur, "ops": ops}
+
+
+# -- caches
+def fc_cases(rng, count):
+    keys = [("", 0), ("a", 0), ("a", 1), ("ab", 1), ("b", 0), ("b", 1), ("a\nb", 2), ("ab", 0), ("c", 1), ("cc", 2),
+            ("d", 0), ("dd", 1), ("e", 0), ("ee", 2)]
+    # exhaustive: every key sequence of length <= 4 over 3 keys, sizes 1 and 2
+    for size in (1, 2):
+        for ln in range(1, 5):
+            for seq in itertools.product(keys[:3], repeat=ln):
+                yield {"kind": "fc", "size": size, "ops": [list(k) for k in seq]}
+    for _ in range(count):
+        size = rng.choice([1, 2, 3, 10, 10])
+        pool = keys[: rng.choice([3, 5, size + 2, size + 4, len(keys)])] or keys
+        yield {"kind": "fc", "size": size, "ops": [list(rng.choice(pool)) for _ in range(rng.randrange(1, 40))]}
+
+
+TC_MARK = "\ue000"      # texts of the tc family start with a private-use character no other family uses
+
+
+def tc_cases(rng, count):
+    texts = ["", "a", "a\nb", "\n", "ab\n\nc"]
+    base = [["cnew", t] for t in texts[:3]] + [["clines", 0], ["cidx", 0], ["clines", 1], ["cidx", 1], ["cdrop", 0],
+                                                ["cdrop", 1]]
+    for ln in range(1, 4):
+        for seq in itertools.product(base, repeat=ln):
+            yield {"kind": "tc", "ops": [list(o) for o in seq]}
+    for _ in range(count):
+        ops = []
+        for _ in range(rng.randrange(1, 14)):
+            k = rng.randrange(6)
+            if k <= 1:
+                ops.append(["cnew", rng.choice(texts + [rand_text(rng, 5)])])
+            elif k == 2:
+                ops.append(["clines", rng.randrange(0, 5)])
+            elif k == 3:
+                ops.append(["cidx", rng.randrange(0, 5)])
+            else:
+                ops.append(["cdrop", rng.randrange(0, 4)])
+        yield {"kind": "tc", "ops": ops}
 
 
 def cases(tier, rng):
-    maxlen = 3 if tier == "quick" else 5
+    quick = tier == "quick"
+    maxlen = 3 if quick else 5
     for n in range(maxlen + 1):
-        ops = single_ops(n)
+        ops = single_ops(n, base_only=(n >= 5))
         for tup in itertools.product(ALPHA, repeat=n):
             text = "".join(tup)
-            for cur in range(n + 1):
+            for cur in (range(n + 1) if n < 5 else (0, 2, 5)):
                 # one case per (text, cursor): every op applied from a fresh init
-                yield {"text": text, "cur": cur, "fresh": True, "ops": ops}
-    yield from e2e_cases(rng, 300 if tier == "quick" else 5000)
+                yield {"kind": "ops", "text": text, "cur": cur, "fresh": True, "ops": ops}
+    for n in range(maxlen + 1):
+        ops = cmd_ops(n)
+        for tup in itertools.product(CMD_ALPHA, repeat=n):
+            text = "".join(tup)
+            if n < 5 and not set(text) - set(ALPHA):
+                continue        # already covered by the first family
+            for cur in range(n + 1):
+                yield {"kind": "ops", "text": text, "cur": cur, "fresh": True, "ops": ops}
+    rops = rs_ops()
+    for n in range((4 if quick else 5) + 1):
+        for tup in itertools.product(RS_ALPHA, repeat=n):
+            text = "".join(tup)
+            yield {"kind": "ops", "text": text, "cur": 0, "fresh": True, "ops": rops}
+    yield from e2e_cases(rng, 400 if quick else 3500)
     # case-transform commands on words whose case mapping changes the length (sharp s)
     case_ops = [[w, a] for w in ("uw", "lw", "cw") for a in (1, 2, 3)]
-    for n in range(1, (4 if tier == "quick" else 6) + 1):
+    for n in range(1, (4 if quick else 6) + 1):
         for tup in itertools.product(["\u00df", "a", " ", "\n"], repeat=n):
             text = "".join(tup)
             if "\u00df" not in text:
                 continue
             for cur in range(n + 1):
-                yield {"text": text, "cur": cur, "fresh": True, "ops": case_ops}
-    nrand = 3000 if tier == "quick" else 60000
+                yield {"kind": "ops", "text": text, "cur": cur, "fresh": True, "ops": case_ops}
+    yield from hist_cases(rng, 1500 if quick else 20000, 3 if quick else 4)
+    yield from fc_cases(rng, 300 if quick else 3000)
+    yield from tc_cases(rng, 300 if quick else 3000)
+    nrand = 3000 if quick else 40000
+    if API_NEW:
+        nrand *= 4      # API coverage pin: a new, unmodelled mutator appeared -> explore more
     for _ in range(nrand):
         n = rng.choice([0, 1, 2, 3, 5, 8, 13, 40])
-        text = "".join(rng.choice(RAND_ALPHA) for _ in range(n))
+        text = rand_text(rng, n)
         cur = rng.choice([0, len(text), rng.randrange(0, len(text) + 1)])
         ops = [rand_op(rng, len(text)) for _ in range(rng.randrange(1, 13))]
-        yield {"text": text, "cur": cur, "fresh": False, "ops": ops}
+        yield {"kind": "ops", "text": text, "cur": cur, "fresh": False, "ops": ops}
+    if API_NEW:
+        for name in API_NEW:
+            for text in ["", "a", "ab\ncd", "a b  c"]:
+                for cur in sorted({0, len(text) // 2, len(text)}):
+                    yield {"kind": "api", "name": name, "text": text, "cur": cur, "ops": []}
 
 
-E2E_KEY = {"bdc": "\x7f", "dc": "\x1b[3~", "uw": "\x1bu", "lw": "\x1bl", "cw": "\x1bc", "tc": "\x14"}
-
-
-def e2e_keys(op):
-    """the terminal bytes a user types for this command: Esc - / Esc <digit> ... then the key"""
-    k = op[0]
-    if k == "si":
-        arg, key = op[2], op[1]
-    elif k == "tc":
-        arg, key = None, E2E_KEY[k]
-    else:
-        arg, key = op[1], E2E_KEY[k]
-    pre = ""
-    if arg is not None and arg != 1:
-        if arg < 0:
-            pre += "\x1b-"
-            if arg != -1:
-                pre += "".join("\x1b" + d for d in str(-arg))
-        else:
-            pre += "".join("\x1b" + d for d in str(arg))
-    return pre + key
-
-
-def e2e_cases(rng, n):
-    for _ in range(n):
-        ln = rng.choice([0, 1, 2, 3, 5, 8])
-        text = "".join(rng.choice(RAND_ALPHA) for _ in range(ln))
-        cur = rng.choice([0, len(text), rng.randrange(0, len(text) + 1)])
-        k = rng.choice(["bdc", "bdc", "dc", "dc", "uw", "lw", "cw", "tc", "si"])
-        a = rng.choice([-12, -2, -1, 1, 1, 2, 3, 10, len(text) + 2])
-        if k == "si":
-            op = ["si", "x", rng.choice([1, 2, 3, 12])]
-        elif k == "tc":
-            op = ["tc"]
-        elif k in ("uw", "lw", "cw"):
-            op = [k, rng.choice([1, 1, 2, 3])]
-        else:
-            op = [k, a]
-        yield {"text": text, "cur": cur, "fresh": False, "e2e": True, "ops": [op]}
-
-
+# ------------------------------------------------------------------ protocol lines
 def op_line(op):
     k = op[0]
     if k == "ins":
         return f"ins {enc_str(op[1])} {op[2]} {op[3]}"
-    if k in ("join", "text"):
+    if k == "rosetdoc":
+        return f"rosetdoc {op[1]} {enc_str(op[2])} {op[3]}"
+    if k in ("join", "text", "qi", "rotext"):
         return f"{k} {enc_str(op[1])}"
     if k == "si":
         return f"si {enc_str(op[1])} {op[2]}"
     if k == "jsl":
         return f"jsl {op[1]} {enc_str(op[2])}"
-    if k == "setdoc":
-        return f"setdoc {enc_str(op[1])} {op[2]}"
+    if k in ("setdoc", "hreset"):
+        return f"{k} {enc_str(op[1])} {op[2]}"
     return " ".join(str(x) for x in op)
 
 
+HIST_ONLY = ("goto", "hback", "hfwd", "hreset")
+
+
 def model_lines(case):
-    init = f"init {enc_str(case['text'])} {case['cur']}"
+    kind = case.get("kind", "ops")
     out = []
-    if case.get("fresh"):
+    if kind == "ops":
+        init = f"init {enc_str(case['text'])} {case['cur']}"
+        if case.get("fresh"):
+            for op in case["ops"]:
+                out += [init, op_line(op)]
+        else:
+            out.append(init)
+            out += [op_line(op) for op in case["ops"]]
+    elif kind == "e2e":
+        out.append(f"init {enc_str(case['text'])} {case['cur']}")
+        for o in case["ops"]:
+            if o["k"] == "qi":
+                out.append(f"e2eqi {enc_str(o['op'][1])}")
+            else:
+                data = o["op"][1] if o["k"] == "si" else ""
+                out.append(f"e2e {E2E_KEYS[o['k']][0]} {enc_str(o['arg'])} {enc_str(data)}")
+    elif kind == "hist":
+        out.append("hinit %d %d %s" % (case["idx"], case["cur"], " ".join(enc_str(l) for l in case["lines"])))
         for op in case["ops"]:
-            out += [init, op_line(op)]
-    else:
-        out.append(init)
-        out += [op_line(op) for op in case["ops"]]
+            out += [op_line(op), "hq", "doc"]
+    elif kind == "fc":
+        out.append(f"fcinit {case['size']}")
+        for t, c in case["ops"]:
+            out.append(f"fcget {enc_str(t)} {c}")
+    elif kind == "tc":
+        out.append("cinit")
+        for op in case["ops"]:
+            if op[0] == "cnew":
+                out.append(f"cnew {enc_str(TC_MARK + op[1])} 0")
+            else:
+                out.append(f"{op[0]} {op[1]}")
+    elif kind == "api":
+        out = []
     return out
 
 
+# ------------------------------------------------------------------ the real code
+class Recorder:
+    """records what Buffer.delete / delete_before_cursor return while a named command runs"""
+
+    def __init__(self, b):
+        self.b = b
+        self.ret = []
+
+    def __enter__(self):
+        b = self.b
+        od, odb = b.delete, b.delete_before_cursor
+
+        def d(count=1):
+            r = od(count=count)
+            self.ret.append(r)
+            return r
+
+        def db(count=1):
+            r = odb(count=count)
+            self.ret.append(r)
+            return r
+
+        b.delete, b.delete_before_cursor = d, db
+        return self
+
+    def __exit__(self, *a):
+        del self.b.delete
+        del self.b.delete_before_cursor
+
+
+def stub_event(b, arg, data=""):
+    from prompt_toolkit.clipboard import InMemoryClipboard
+
+    app = SimpleNamespace(output=SimpleNamespace(bell=lambda: None), clipboard=InMemoryClipboard(),
+                          emacs_state=SimpleNamespace(last_kill_word_killed=False), quoted_insert=False)
+    return SimpleNamespace(current_buffer=b, arg=arg, data=data, is_repeat=False, arg_present=True, app=app)
+
+
+def new_buffer(text, cur):
+    from prompt_toolkit.filters import Condition
+    ro = [False]
+    b = Buffer(document=Document(text, cur), accept_handler=lambda buf: True, read_only=Condition(lambda: ro[0]))
+    b._verif_ro = ro
+    return b
+
+
+def refresh(b: Buffer, case):
+    """back to the initial (text, cursor) of a "fresh" case: Buffer.reset is ten times cheaper than
+    constructing a new Buffer for every single op"""
+    b.reset(Document(case["text"], case["cur"]))
+    b.text_width = 0
+    b._verif_ro[0] = False
+
+
 def apply_op(b: Buffer, op):
-    """apply one op to the real Buffer; return the method's return value ('' for None)"""
+    """apply one op to the real Buffer; return the method's return value ('' for None); for named
+    commands: the concatenated return values of the delete calls the handler made"""
     k = op[0]
     if k == "ins":
         b.insert_text(op[1], overwrite=bool(op[2]), move_cursor=bool(op[3]))
@@ -273,6 +715,9 @@ def apply_op(b: Buffer, op):
         indent(b, op[1], op[2], op[3])
     elif k == "unind":
         unindent(b, op[1], op[2], op[3])
+    elif k == "rs":
+        b.text_width = op[3]
+        reshape_text(b, op[1], op[2])
     elif k == "jsl":
         from prompt_toolkit.selection import SelectionState
         b.selection_state = SelectionState(original_cursor_position=min(op[1], len(b.text)))
@@ -285,12 +730,44 @@ def apply_op(b: Buffer, op):
             b.document = Document(op[1], op[2])
         except AssertionError:
             pass
+    elif k in ("rotext", "rosetdoc"):
+        # the same setter on a READ-ONLY buffer: "R" = EditReadOnlyBuffer was raised
+        from prompt_toolkit.buffer import EditReadOnlyBuffer
+        b._verif_ro[0] = True
+        try:
+            if k == "rotext":
+                b.text = op[1]
+            else:
+                b.set_document(Document(op[2], op[3]), bypass_readonly=bool(op[1]))
+        except EditReadOnlyBuffer:
+            return "R"
+        except AssertionError:
+            pass
+        finally:
+            b._verif_ro[0] = False
+    elif k == "qi":
+        # quoted-insert, then the handler of the next key (basic bindings, `in_quoted_insert`)
+        ev = stub_event(b, 1, op[1])
+        get_by_name("quoted-insert").handler(ev)
+        assert ev.app.quoted_insert is True
+        b.insert_text(ev.data, overwrite=False)
     elif k in NAMED:
-        # the real readline command, called with a minimal event object
-        ev = SimpleNamespace(current_buffer=b, arg=(op[2] if k == "si" else op[1] if len(op) > 1 else 1),
-                             data=(op[1] if k == "si" else ""),
-                             app=SimpleNamespace(output=SimpleNamespace(bell=lambda: None)))
-        get_by_name(NAMED[k]).handler(ev)
+        name = NAMED[k]
+        if k == "rub":
+            name = "unix-word-rubout" if op[2] else "backward-kill-word"
+        arg = op[2] if k == "si" else op[1] if len(op) > 1 else 1
+        ev = stub_event(b, arg, op[1] if k == "si" else "")
+        with Recorder(b) as rec:
+            get_by_name(name).handler(ev)
+        return "".join(rec.ret)
+    elif k == "goto":
+        b.go_to_history(op[1])
+    elif k == "hback":
+        b.history_backward(count=op[1])
+    elif k == "hfwd":
+        b.history_forward(count=op[1])
+    elif k == "hreset":
+        b.reset(Document(op[1], op[2]))
     else:
         raise ValueError(op)
     return ""
@@ -300,29 +777,109 @@ def state_line(b: Buffer, ret="") -> str:
     return f"{enc_str(b.text)} {b.cursor_position} {enc_str(ret or '')}"
 
 
-def e2e_run(case):
-    """type the command into a real PromptSession (emacs mode, multi-line) key by key"""
+def hist_line(b: Buffer) -> str:
+    return f"{b.working_index} {b.cursor_position} {enc_list(list(b._working_lines), enc_str)}"
+
+
+def doc_line(b: Buffer) -> str:
+    d = b.document
+    return f"{enc_str(d.text)} {d.cursor_position}"
+
+
+def hist_buffer(case):
+    from collections import deque
+    b = new_buffer(case["lines"][case["idx"]], case["cur"])
+    b._working_lines = deque(case["lines"])
+    b._Buffer__working_index = case["idx"]
+    b._Buffer__cursor_position = case["cur"]
+    return b
+
+
+def e2e_run(case, observe=None):
+    """type the commands into a real PromptSession (emacs mode, multi-line) key by key"""
     from editor import editor
     with editor(text=case["text"], cursor=case["cur"], multiline=True) as ed:
-        first = state_line(ed.buffer)
-        for op in case["ops"]:
-            ed.feed(e2e_keys(op))
-        return ed, first, state_line(ed.buffer)
+        lines = [state_line(ed.buffer)]
+        for o in case["ops"]:
+            t, c = ed.buffer.text, ed.buffer.cursor_position
+            ed.feed(e2e_bytes(o))
+            lines.append(state_line(ed.buffer))
+            if observe:
+                observe(t, c, o, ed.buffer)
+        return lines
+
+
+def fc_run(case, observe=None):
+    from prompt_toolkit.cache import FastDictCache
+    cache = FastDictCache(Document, size=case["size"])
+    out = ["ok"]
+    for t, c in case["ops"]:
+        hit = (t, c) in cache
+        d = cache[t, c]
+        keys = list(cache._keys)
+        out.append(f"{1 if hit else 0} {enc_str(d.text)} {d.cursor_position} "
+                   + enc_list(keys, lambda k: enc_str(k[0]) + ":" + str(k[1])))
+        if observe:
+            observe(cache, (t, c), d)
+    return out
+
+
+def tc_run(case, observe=None):
+    docs = []
+    out = ["ok"]
+
+    def sharing():
+        sig = []
+        for d in docs:
+            sig.append(next(i for i, e in enumerate(docs) if e._cache is d._cache))
+        return enc_list(sig)
+
+    for op in case["ops"]:
+        if op[0] == "cnew":
+            docs.append(Document(TC_MARK + op[1], 0))
+            out.append(sharing())
+        elif op[0] == "clines":
+            out.append(enc_list(list(docs[op[1]].lines), enc_str) if op[1] < len(docs) else "0")
+        elif op[0] == "cidx":
+            out.append(enc_list(list(docs[op[1]]._line_start_indexes)) if op[1] < len(docs) else "0")
+        elif op[0] == "cdrop":
+            if op[1] < len(docs):
+                del docs[op[1]]
+            out.append(sharing())
+        if observe:
+            observe(docs)
+    return out
 
 
 def impl_lines(case):
+    kind = case.get("kind", "ops")
     out = []
-    if case.get("e2e"):
-        _, first, last = e2e_run(case)
-        return [first, last]
-    if case.get("fresh"):
+    if kind == "e2e":
+        return e2e_run(case)
+    if kind == "fc":
+        return fc_run(case)
+    if kind == "tc":
+        return tc_run(case)
+    if kind == "api":
+        return []
+    if kind == "hist":
+        b = hist_buffer(case)
+        out.append(hist_line(b))
         for op in case["ops"]:
-            b = Buffer(document=Document(case["text"], case["cur"]))
+            ret = apply_op(b, op)
+            out.append(hist_line(b) if op[0] in HIST_ONLY else state_line(b, ret))
+            out.append(hist_line(b))
+            out.append(doc_line(b))
+        return out
+    if case.get("fresh"):
+        b = new_buffer(case["text"], case["cur"])
+        for op in case["ops"]:
+            refresh(b, case)
             out.append(state_line(b))
             ret = apply_op(b, op)
             out.append(state_line(b, ret))
     else:
-        b = Buffer(document=Document(case["text"], case["cur"]))
+        b = new_buffer(case["text"], case["cur"])
         out.append(state_line(b))
         for op in case["ops"]:
             ret = apply_op(b, op)
@@ -331,8 +888,13 @@ def impl_lines(case):
 
 
 # ------------------------------------------------------------------ oracle
+WORD_RE = re.compile(r"([a-zA-Z0-9_]+|[^a-zA-Z0-9_\s]+)")
+BIG_WORD_RE = re.compile(r"([^\s]+)")
+
+
 def check_op(text, cur, op, b: Buffer, ret):
-    """The property C01 restated over the observed before/after state of the real Buffer."""
+    """The property C01 restated over the observed before/after state of the real Buffer.
+    `ret` = what the delete calls returned (None when it could not be observed: end to end)."""
     v = []
     before, after = text[:cur], text[cur:]
     nt, nc = b.text, b.cursor_position
@@ -340,6 +902,17 @@ def check_op(text, cur, op, b: Buffer, ret):
 
     def bad(site, cond, msg):
         v.append({"signature": f"{site} | {cond}", "msg": f"{msg}: text={text!r} cur={cur} op={op} -> text={nt!r} cur={nc} ret={ret!r}"})
+
+    def removed_before(m, site, cond, what):
+        """exactly the last m characters before the cursor are removed (and returned)"""
+        m = max(0, min(m, len(before)))
+        if nt != before[:len(before) - m] + after or nc != cur - m or (ret is not None and ret != before[len(before) - m:]):
+            bad(site, cond, what)
+
+    def removed_after(m, site, cond, what):
+        m = max(0, min(m, len(after)))
+        if nt != before + after[m:] or nc != cur or (ret is not None and ret != after[:m]):
+            bad(site, cond, what)
 
     if not (0 <= nc <= len(nt)):
         bad("Buffer." + k, "cursor out of range", "cursor outside 0..len(text)")
@@ -361,9 +934,15 @@ def check_op(text, cur, op, b: Buffer, ret):
         if nc != (cur + len(data) if mv else cur):
             bad("Buffer.insert_text", "cursor", "cursor after insert")
     elif k == "del":
-        m = min(op[1], len(after))
-        if ret != after[:m] or nt != before + after[m:] or nc != cur:
-            bad("Buffer.delete", "count>available" if op[1] > len(after) else "count<=available", "delete(n)")
+        if op[1] >= 0:
+            m = min(op[1], len(after))
+            if ret != after[:m] or nt != before + after[m:] or nc != cur:
+                bad("Buffer.delete", "count>available" if op[1] > len(after) else "count<=available", "delete(n)")
+        else:
+            # a negative count is outside "delete n characters"; what must still hold: only characters
+            # adjacent to the cursor go, and exactly those are returned
+            if not (after.startswith(ret) and nt == before + after[len(ret):] and nc == cur):
+                bad("Buffer.delete", "negative count frame", "delete(n<0) changed other text")
     elif k == "delb":
         m = min(op[1], len(before))
         exp_ret = before[len(before) - m:]
@@ -377,14 +956,17 @@ def check_op(text, cur, op, b: Buffer, ret):
             bad("Buffer.newline", "frame", "newline changed other text")
     elif k in ("above", "below"):
         # exactly one newline (plus copied margin whitespace) inserted at a line boundary
-        ins_len = len(nt) - len(text)
-        found = False
-        for p in range(len(text) + 1):
-            seg = nt[p:p + ins_len]
-            if nt == text[:p] + seg + text[p:] and seg.count("\n") == 1 and seg.replace("\n", "").strip() == "":
-                found = True
-        if not found:
-            bad("Buffer.insert_line_" + k, "frame", "insert_line changed other text")
+        a = text.rfind("\n", 0, cur) + 1
+        e = text.find("\n", cur)
+        e = len(text) if e < 0 else e
+        line = text[a:e]
+        margin = line[: len(line) - len(line.lstrip())] if op[1] else ""
+        if k == "above":
+            exp, expc = text[:a] + margin + "\n" + text[a:], a + len(margin)
+        else:
+            exp, expc = text[:e] + "\n" + margin + text[e:], e + 1 + len(margin)
+        if nt != exp or nc != expc:
+            bad("Buffer.insert_line_" + k, "frame", "insert_line changed other text / wrong cursor")
     elif k == "join":
         sep = op[1]
         if "\n" not in after:
@@ -435,26 +1017,55 @@ def check_op(text, cur, op, b: Buffer, ret):
                 else:
                     if not l0.endswith(l1) or l0[: len(l0) - len(l1)].strip() != "":
                         bad("buffer.unindent", "content", "unindent removed non-blank characters")
+    elif k == "rs":
+        lines = text.splitlines(True)
+        n = len(lines)
+        a = max(0, op[1] + n) if op[1] < 0 else min(op[1], n)
+        e1 = op[2] + 1
+        e = max(0, e1 + n) if e1 < 0 else min(e1, n)
+        region = lines[a:e]
+        if not region:
+            if nt != text or nc != cur:
+                bad("buffer.reshape_text", "empty range", "reshape_text of an empty row range must be a no-op")
+        else:
+            pre, post = "".join(lines[:a]), "".join(lines[e:])
+            if not (nt.startswith(pre) and nt.endswith(post) and len(nt) >= len(pre) + len(post)):
+                bad("buffer.reshape_text", "frame", "lines outside from_row..to_row changed")
+            else:
+                mid = nt[len(pre): len(nt) - len(post)]
+                if mid.split() != "".join(region).split():
+                    bad("buffer.reshape_text", "words", "reshape_text changed something else than white space")
+                if nc != len(pre) + len(mid):
+                    bad("buffer.reshape_text", "cursor", "cursor is not at the end of the reshaped text")
     elif k in ("bdc", "dc"):
         a = op[1]
         backward = (a >= 0) if k == "bdc" else (a < 0)
-        m = abs(a)
+        cond = "negative argument" if a < 0 else "argument>=0"
+        what = "Esc <n> Backspace/Delete must remove exactly min(|n|, available) adjacent characters"
         if backward:
-            m = min(m, len(before))
-            exp_t, exp_c = before[:len(before) - m] + after, cur - m
+            removed_before(abs(a), "named_commands." + NAMED[k], cond, what)
         else:
-            m = min(m, len(after))
-            exp_t, exp_c = before + after[m:], cur
-        if nt != exp_t or nc != exp_c:
-            bad("named_commands." + NAMED[k], "negative argument" if a < 0 else "argument>=0",
-                "Esc <n> Backspace/Delete must remove exactly min(|n|, available) adjacent characters")
+            removed_after(abs(a), "named_commands." + NAMED[k], cond, what)
     elif k == "si":
         d = op[1] * max(0, op[2])
         if nt != before + d + after or nc != cur + len(d):
             bad("named_commands.self-insert", "insert", "self-insert")
+    elif k == "qi":
+        if nt != before + op[1] + after or nc != cur + len(op[1]):
+            bad("named_commands.quoted-insert", "insert", "quoted insert")
     elif k == "tc":
-        if sorted(nt) != sorted(text) or sum(1 for x, y in zip(nt, text) if x != y) > 2:
-            bad("named_commands.transpose-chars", "frame", "transpose-chars changed more than two characters")
+        # Emacs transpose-chars: nothing at the start of the buffer; at the end of a line / of the
+        # buffer the two characters before the cursor are exchanged; otherwise the characters around
+        # the cursor are exchanged and the cursor moves right
+        if cur == 0:
+            exp, expc = text, cur
+        elif cur == len(text) or text[cur] == "\n":
+            exp = text if cur < 2 else text[:cur - 2] + text[cur - 1] + text[cur - 2] + text[cur:]
+            expc = cur
+        else:
+            exp, expc = text[:cur - 1] + text[cur] + text[cur - 1] + text[cur + 1:], cur + 1
+        if nt != exp or nc != expc:
+            bad("named_commands.transpose-chars", "frame", "transpose-chars must exchange exactly the two addressed characters")
     elif k in CASEF:
         # only a stretch text[cur:cur+j] may change, and only by the case function, per iteration
         f = CASEF[k]
@@ -472,6 +1083,71 @@ def check_op(text, cur, op, b: Buffer, ret):
                         break
         if not ok:
             bad("named_commands." + NAMED[k], "frame", "case transform changed characters outside the words it addresses")
+    elif k == "kw":
+        a = op[1]
+        site = "named_commands.kill-word"
+        if a > 0:
+            ms = list(WORD_RE.finditer(after[1:]))
+            m = ms[a - 1].end() + 1 if len(ms) >= a else 0
+            removed_after(m, site, "argument>0", "kill-word must remove exactly the text up to the end of the n-th following word")
+        elif a == 0:
+            if nt != text or nc != cur:
+                bad(site, "argument 0", "kill-word with argument 0 must not change anything")
+        else:
+            # a negative argument kills backward: nothing after the cursor may disappear, the
+            # removed characters are adjacent to the cursor and are exactly what was returned
+            m = len(text) - len(nt)
+            if not (0 <= m <= len(before) and nt == before[:len(before) - m] + after and nc == cur - m
+                    and (ret is None or ret == before[len(before) - m:])):
+                bad(site, "negative argument", "kill-word with a negative argument removed text after the cursor")
+    elif k == "rub":
+        a, big = op[1], op[2]
+        site = "named_commands." + ("unix-word-rubout" if big else "backward-kill-word")
+        ms = list((BIG_WORD_RE if big else WORD_RE).finditer(before[::-1]))
+        if a >= 1 and len(ms) >= a:
+            removed_before(ms[a - 1].end(), site, "argument>0", "must remove exactly back to the start of the n-th previous word")
+        else:
+            # no such word (or argument <= 0): the code deletes back to the start of the document;
+            # the property only asks that nothing else changes and the removed text is returned
+            m = len(text) - len(nt)
+            if not (0 <= m <= len(before)):
+                bad(site, "frame", "removed more than the text before the cursor")
+            else:
+                removed_before(m, site, "frame", "removed text not adjacent to the cursor / not returned")
+    elif k == "kl":
+        site = "named_commands.kill-line"
+        if op[1] < 0:
+            removed_before(len(before) - (before.rfind("\n") + 1), site, "negative argument", "must remove the line before the cursor")
+        elif after.startswith("\n"):
+            removed_after(1, site, "on line ending", "must remove exactly the line ending")
+        else:
+            e = after.find("\n")
+            removed_after(len(after) if e < 0 else e, site, "argument>=0", "must remove up to the end of the line")
+    elif k == "uld":
+        site = "named_commands.unix-line-discard"
+        col = len(before) - (before.rfind("\n") + 1)
+        if col == 0 and cur > 0:
+            removed_before(1, site, "column 0", "must remove the line ending before the cursor")
+        else:
+            removed_before(col, site, "frame", "must remove the line before the cursor")
+    elif k == "dhs":
+        rb, la = before.rstrip("\t "), after.lstrip("\t ")
+        if nt != rb + la or nc != len(rb) or (ret is not None and ret != before[len(rb):] + after[:len(after) - len(la)]):
+            bad("named_commands.delete-horizontal-space", "frame", "must remove exactly the blanks around the cursor")
+    elif k == "ic":
+        site = "named_commands.insert-comment"
+        src = text.splitlines()
+        dst = nt.split("\n") if src else ([] if nt == "" else [nt])
+        if len(src) != len(dst):
+            bad(site, "line count", "insert-comment changed the number of lines")
+        elif op[1] == 1:
+            if any(d != "#" + s for s, d in zip(src, dst)):
+                bad(site, "frame", "a line is not '#' + line")
+        else:
+            if any(d != (s[1:] if s.startswith("#") else s) for s, d in zip(src, dst)):
+                bad(site, "frame", "uncomment removed something else than one leading '#'")
+        if nc != 0:
+            bad(site, "cursor", "cursor must be 0")
     elif k == "jsl":
         o = min(op[1], len(text))
         a, e = min(cur, o), max(cur, o)
@@ -480,41 +1156,156 @@ def check_op(text, cur, op, b: Buffer, ret):
     elif k == "setdoc":
         if op[2] <= len(op[1]) and (nt != op[1] or nc != max(0, op[2])):
             bad("Buffer.document", "set", "document setter")
+    elif k == "rotext":
+        if nt != text or ret != "R":
+            bad("Buffer.text", "read-only", "the text setter changed a read-only buffer / did not raise")
+    elif k == "rosetdoc":
+        bp, t, c = op[1], op[2], op[3]
+        if c > len(t):
+            ok = (nt == text and nc == cur)
+        elif bp:
+            ok = (nt == t and nc == max(0, c) and ret == "")
+        else:
+            ok = (nt == text and nc == cur and ret == "R")
+        if not ok:
+            bad("Buffer.set_document", "read-only", "set_document on a read-only buffer (bypass_readonly=%r)" % bool(bp))
     elif k == "cur":
         if nt != text or nc != max(0, min(op[1], len(text))):
             bad("Buffer.cursor_position", "clamp", "cursor setter")
     elif k == "text":
-        if nt != op[1]:
+        if nt != op[1] or nc != min(cur, len(op[1])):
             bad("Buffer.text", "set", "text setter")
     return v
 
 
-def oracle(case):
+def check_hist(b, op, lines0, idx0, ret, text0, cur0):
+    """views / working lines around one op of a history sequence"""
     v = []
-    if case.get("e2e"):
-        ed, _, _ = e2e_run(case)
-        v = check_op(case["text"], case["cur"], case["ops"][0], ed.buffer, "")
-        for x in v:
-            x["signature"] = "end-to-end " + x["signature"]
+
+    def bad(cond, msg):
+        v.append({"signature": f"Buffer.{op[0]} | {cond}", "msg": f"{msg}: lines={lines0!r} idx={idx0} cur={cur0} op={op} -> "
+                  f"lines={list(b._working_lines)!r} idx={b.working_index} cur={b.cursor_position}"})
+
+    lines1, idx1 = list(b._working_lines), b.working_index
+    if not (0 <= idx1 < len(lines1)):
+        bad("working index out of range", "working_index outside the working lines")
         return v
-    if case.get("fresh"):
-        for op in case["ops"]:
-            b = Buffer(document=Document(case["text"], case["cur"]))
-            ret = apply_op(b, op)
-            v += check_op(case["text"], case["cur"], op, b, ret)
+    if not (b.text == lines1[idx1] == b.document.text and b.document.cursor_position == b.cursor_position):
+        bad("views disagree", "text / document / working line differ")
+    if not (0 <= b.cursor_position <= len(b.text)):
+        bad("cursor out of range", "cursor outside 0..len(text)")
+    if op[0] in ("goto", "hback", "hfwd"):
+        if lines1 != lines0:
+            bad("history switch changed a working line", "a working line changed while only browsing")
+    elif op[0] == "hreset":
+        if lines1 != [op[1]] or idx1 != 0:
+            bad("reset", "reset must leave exactly the given document")
     else:
-        b = Buffer(document=Document(case["text"], case["cur"]))
-        for op in case["ops"]:
-            t, c = b.text, b.cursor_position
-            ret = apply_op(b, op)
-            v += check_op(t, c, op, b, ret)
-    # dedupe by signature
+        if idx1 != idx0:
+            bad("edit switched the working line", "an edit changed working_index")
+        elif len(lines1) != len(lines0) or any(x != y for j, (x, y) in enumerate(zip(lines0, lines1)) if j != idx0):
+            bad("edit changed another working line", "an edit touched a working line it does not address")
+        v += check_op(text0, cur0, op, b, ret)
+    return v
+
+
+def dedupe(v):
     seen, out = set(), []
     for x in v:
         if x["signature"] not in seen:
             seen.add(x["signature"])
             out.append(x)
     return out
+
+
+def api_probe(case):
+    """generic invariant probe of a public mutator the model does not know: call it without
+    arguments (when possible) and check cursor range + views"""
+    v = []
+    b = new_buffer(case["text"], case["cur"])
+    name = case["name"]
+    try:
+        if name.startswith("Buffer.") and not name.endswith("="):
+            getattr(b, name[len("Buffer."):])()
+        elif "." not in name:
+            import prompt_toolkit.buffer as B
+            getattr(B, name)(b)
+    except Exception:
+        return v
+    nt, nc = b.text, b.cursor_position
+    if not (0 <= nc <= len(nt)):
+        v.append({"signature": f"{name} | cursor out of range", "msg": f"{name} on {case['text']!r}@{case['cur']}: cursor {nc} text {nt!r}"})
+    if not (b.document.text == nt == b._working_lines[b.working_index] and b.document.cursor_position == nc):
+        v.append({"signature": f"{name} | views disagree", "msg": f"{name} on {case['text']!r}@{case['cur']}"})
+    return v
+
+
+def oracle(case):
+    kind = case.get("kind", "ops")
+    v = []
+    if kind == "api":
+        return api_probe(case)
+    if kind == "e2e":
+        def obs(t, c, o, buf):
+            for x in check_op(t, c, o["op"], buf, None):
+                x["signature"] = "end-to-end " + x["signature"]
+                v.append(x)
+        e2e_run(case, obs)
+        return dedupe(v)
+    if kind == "fc":
+        def obs(cache, key, d):
+            if (d.text, d.cursor_position) != key:
+                v.append({"signature": "FastDictCache | returned document describes another key",
+                          "msg": f"key={key!r} -> Document({d.text!r}, {d.cursor_position})"})
+            for k2, d2 in cache.items():
+                if (d2.text, d2.cursor_position) != (k2[0], k2[1]):
+                    v.append({"signature": "FastDictCache | cached document describes another key",
+                              "msg": f"key={k2!r} holds Document({d2.text!r}, {d2.cursor_position})"})
+            if sorted(cache.keys()) != sorted(cache._keys) or len(cache) > cache.size + 1:
+                v.append({"signature": "FastDictCache | bookkeeping", "msg": f"dict keys {sorted(cache.keys())!r} vs deque {list(cache._keys)!r} size {cache.size}"})
+        fc_run(case, obs)
+        return dedupe(v)
+    if kind == "tc":
+        def obs(docs):
+            for d in docs:
+                c = d._cache
+                if c.lines is not None and list(c.lines) != d.text.split("\n"):
+                    v.append({"signature": "Document._cache | lines of another text", "msg": f"text={d.text!r} cached lines={list(c.lines)!r}"})
+                if c.line_indexes is not None:
+                    exp, pos = [], 0
+                    for l in d.text.split("\n"):
+                        exp.append(pos)
+                        pos += len(l) + 1
+                    if list(c.line_indexes) != exp:
+                        v.append({"signature": "Document._cache | line indexes of another text", "msg": f"text={d.text!r} cached indexes={list(c.line_indexes)!r}"})
+        tc_run(case, obs)
+        return dedupe(v)
+    if kind == "hist":
+        b = hist_buffer(case)
+        for op in case["ops"]:
+            lines0, idx0, t0, c0 = list(b._working_lines), b.working_index, b.text, b.cursor_position
+            try:
+                ret = apply_op(b, op)
+                v += check_hist(b, op, lines0, idx0, ret, t0, c0)
+            except (IndexError, AssertionError) as e:
+                # e.g. working_index left outside the working lines: Buffer.text raises IndexError
+                v.append({"signature": f"Buffer.{op[0]} | raised {type(e).__name__}",
+                          "msg": f"lines={lines0!r} idx={idx0} cur={c0} op={op}: {type(e).__name__}: {e}"})
+                break
+        return dedupe(v)
+    if case.get("fresh"):
+        b = new_buffer(case["text"], case["cur"])
+        for op in case["ops"]:
+            refresh(b, case)
+            ret = apply_op(b, op)
+            v += check_op(case["text"], case["cur"], op, b, ret)
+    else:
+        b = new_buffer(case["text"], case["cur"])
+        for op in case["ops"]:
+            t, c = b.text, b.cursor_position
+            ret = apply_op(b, op)
+            v += check_op(t, c, op, b, ret)
+    return dedupe(v)
 
 
 def sample_view(case):
@@ -524,17 +1315,26 @@ def sample_view(case):
 
 
 def nontrivial(case):
-    return len(case["text"]) > 0
+    kind = case.get("kind", "ops")
+    if kind in ("ops", "e2e"):
+        return len(case["text"]) > 0
+    if kind == "hist":
+        return len(case["lines"]) > 1
+    return len(case["ops"]) > 1
 
 
 def distribution(cases):
-    d = {"text_len": {}, "ops": {}}
+    d = {"kinds": {}, "text_len": {}, "ops": {}, "api_coverage": API_COVERAGE}
     for c in cases:
-        n = len(c["text"])
-        key = str(n) if n < 6 else "6+"
-        d["text_len"][key] = d["text_len"].get(key, 0) + 1
+        kind = c.get("kind", "ops")
+        d["kinds"][kind] = d["kinds"].get(kind, 0) + 1
+        if "text" in c:
+            n = len(c["text"])
+            key = str(n) if n < 6 else "6+"
+            d["text_len"][key] = d["text_len"].get(key, 0) + 1
         for op in c["ops"]:
-            d["ops"][op[0]] = d["ops"].get(op[0], 0) + 1
+            name = op["op"][0] if isinstance(op, dict) else (op[0] if kind != "fc" else "fcget")
+            d["ops"][name] = d["ops"].get(name, 0) + 1
     return d
 
 
